@@ -26,29 +26,21 @@ func Glob(pattern, input string, opts ...Option) bool {
 	for _, o := range opts {
 		o(&g)
 	}
-	i := 0
-	j := 0
-	asterisk := false
-	for i < len(pattern) {
+	// reach[j] reports whether the pattern prefix processed so far matches
+	// input[:j]. Each '*' may stand for any (possibly empty) string.
+	reach := make([]bool, len(input)+1)
+	reach[0] = true
+	for i := 0; i < len(pattern); i++ {
 		if pattern[i] == '*' {
-			asterisk = true
-			i++
+			for j := 1; j <= len(input); j++ {
+				reach[j] = reach[j] || reach[j-1]
+			}
 		} else {
-			match := pattern[i] == input[j]
-			if !asterisk && !match {
-				return false
+			for j := len(input); j > 0; j-- {
+				reach[j] = reach[j-1] && input[j-1] == pattern[i]
 			}
-			if match {
-				i++
-			}
-			if asterisk && match {
-				asterisk = false
-			}
-			j++
-		}
-		if j >= len(input) {
-			break
+			reach[0] = false
 		}
 	}
-	return i == len(pattern) && (asterisk || j == len(input))
+	return reach[len(input)]
 }
